@@ -232,6 +232,12 @@ def main(argv):
             msg = hs_oracle(c, o)
             if msg:
                 sig = hs_signature(c, o, msg)
+                if not any(k.get("signature") == sig for k in res.known):
+                    again = C.confirm_failure(res, PROP, "stack", hs_strip(c), c, hs_oracle)
+                    if again is None:
+                        continue
+                    if again[1] is not None:
+                        msg, o = again
                 res.violation({"property": PROP, "kind": "implementation violates property oracle (stack level)", "what": msg,
                                "case": c, "impl_obs": o, "harness": "stack", "signature": sig}, found_input=True, signature=sig)
     return res.finish(assumptions=["handshake deadline: decision model Model/HsTimer.v tied by three raw-peer pacing scenarios per backend (timer law of tokio trusted); isolation of the owning socket is C17's subject"])
